@@ -143,9 +143,35 @@ class Instance(object):
         try:
             self.engine = StateEngine(self.config)
             self.dispatcher = EventDispatcher(self.engine, self.config)
-            self.coro = self.dispatcher.start_asyncio()
-            self.coro.send(None)
-            self.alive = True
+            if self.config["event_queue"]["queue_implementation"].endswith("-asyncio"):
+                self.coro = self.dispatcher.start_asyncio()
+                self.coro.send(None)
+                self.alive = True
+            else:
+                # blocking transport: EventDispatcher.start() blocks in start_consuming(); it runs on its own thread which
+                # parks inside the simulated connection while the harness calls the consumer / timer callbacks itself
+                import threading
+                self.parked = threading.Event()
+                self.release = threading.Event()
+                self.thread_error = []
+                def hook(conn, inst=self):
+                    inst.parked.set()
+                    inst.release.wait()
+                b.blocking_driver = hook
+                def body(inst=self):
+                    try:
+                        inst.dispatcher.start()
+                    except SystemExit as e:
+                        inst.thread_error.append("SystemExit(%s)" % (e.code,))
+                    except BaseException as e:
+                        inst.thread_error.append(repr(e))
+                    inst.parked.set()
+                self.thread = threading.Thread(target=body, daemon=True)
+                self.thread.start()
+                self.parked.wait(10)
+                if self.thread_error:
+                    raise SystemExit(self.thread_error[0])
+                self.alive = True
         except SystemExit as e:
             self.alive = False
             self.start_error = "SystemExit(%s)" % (e.code,)
@@ -170,6 +196,8 @@ class Instance(object):
                 self.coro.close()
             except BaseException:
                 pass
+        if getattr(self, "release", None) is not None:
+            self.release.set()
         self.engine = None; self.dispatcher = None; self.coro = None
 
 # ------------------------------------------------------------------------------------------------------
@@ -206,6 +234,7 @@ class World(object):
     def __init__(self, scenario, monitors=()):
         install()
         self.sc = scenario
+        self.shared_queue = "asl_workflow_events" + ("-qq" if scenario.get("queue_type") == "quorum" else "")
         _Cur.world = self
         _Cur.clock = self.clock = Clock()
         _Cur.uuid_counter = 0
@@ -254,6 +283,8 @@ class World(object):
             cfg = make_config(ids[k], self.store_url, scenario.get("queue_type", "classic"),
                               scenario.get("execution_ttl", 300), scenario.get("retention_ms", 5000),
                               scenario.get("config"))
+            if scenario.get("transport") == "blocking":
+                cfg["event_queue"]["queue_implementation"] = "AMQP-0.9.1"
             inst = Instance(self, k + 1, cfg)
             self.instances.append(inst)
             inst.start()
@@ -618,6 +649,16 @@ class World(object):
             # a raw start event on the shared queue, shaped like the one StartExecution publishes
             machine = call["machine"]; name = call.get("name")
             arn = exec_arn(machine, name)
+            if self.sc.get("start_via_api"):
+                # the real StartExecution of instance 1's REST front end
+                from .api import ApiClient
+                if getattr(self, "_apic", None) is None:
+                    self._apic = ApiClient(self, 1)
+                st, js, text = self._apic.call("StartExecution", {"stateMachineArn": sm_arn(machine), "name": name, "input": json.dumps(call.get("input", {}))})
+                if st != 200 or (js or {}).get("executionArn") != arn:
+                    raise RuntimeError("StartExecution failed: %s %s" % (st, text))
+                self.started.append(arn)
+                return
             iso = VDateTime.now(_dt.timezone.utc).astimezone().isoformat()
             ev = {"data": call.get("input", {}), "context": {
                 "Tracer": {},
@@ -626,9 +667,9 @@ class World(object):
                 "State": {"EnteredTime": iso, "Name": ""},
                 "StateMachine": {"Id": sm_arn(machine), "Name": machine}}}
             self.started.append(arn)
-            self.publish_event(ev, call.get("queue", "asl_workflow_events"))
+            self.publish_event(ev, call.get("queue", self.shared_queue))
         elif op == "raw":
-            self.publish_raw(call["body"], call.get("queue", "asl_workflow_events"), call.get("message_id"))
+            self.publish_raw(call["body"], call.get("queue", self.shared_queue), call.get("message_id"))
             if call.get("arn"):
                 self.started.append(call["arn"])
         elif op == "call":
@@ -700,10 +741,19 @@ class World(object):
 
     def close(self):
         for inst in self.instances:
+            if getattr(inst, "release", None) is not None:
+                inst.release.set()
+                if getattr(inst, "thread", None) is not None:
+                    inst.thread.join(2)
             if inst.coro is not None:
                 try:
                     inst.coro.close()
                 except BaseException:
                     pass
                 inst.coro = None
+            if self.sc.get("store") == "redis" and getattr(inst, "engine", None) is not None:
+                # the stores' destructors would try to talk to a tracker that no longer exists
+                for v in list(vars(inst.engine).values()):
+                    if hasattr(v, "tracker_id"):
+                        v.tracker_id = None
         Broker.CURRENT = None
